@@ -23,18 +23,19 @@ META = dict(
     explanation="Equilibrium = symbolic positive tensions T with sum_e T_e u(e,j) = 0 at every used junction; tangents u are symbolic "
                 "unit vectors (their correctness is C02's obligation, re-run here on 3-point arcs).  The reported values are compared "
                 "with E*T/sum(T) for every such configuration.",
-    bounds=dict(tissues="T3 (3x4 rectangular: fallback), K3-n0, K3 (7x7 square: inversion path), K4 thorough", methods="default, lsq_linear, lsq",
+    bounds=dict(tissues="quick: T3 (3x4 rectangular: fallback), K3-n0; thorough adds K3 (7x7 square: inversion path, both inverse outcomes) and K4", methods="default, lsq_linear, lsq",
                 arcs="3 points per interface for the tangent link (C02 covers up to 9)"),
     outside=["numerical tolerance of the back-ends", "exactly collinear >= 3-point interfaces (MINPACK)", "tissues beyond the catalogue",
              "mesh resampling leg: see C11 (kept points are a subsequence including both ends)"],
-    assumptions=["uniqueness hypothesis of the property, used as: the augmented system has no non-trivial null vector (instantiated at "
-                 "reported - truth); this is slightly stronger than 'unique up to scale' and means the check claims less",
+    assumptions=["the property's uniqueness hypothesis null(M) = span(T), instantiated at reported - truth",
+                 "exact-inversion path: np.linalg.inv succeeded => augmented matrix regular (instantiated at reported - truth)",
+                 "lsq_linear: unique solvability of the bordered normal system under the first hypothesis (trusted mathematics, see harness)",
                  "nnls / lsq_linear / lmfit return a KKT point", "inverse: A x = b", "tangent stub contract (C02-A)"],
     trusted=["z3"],
 )
 
 
-def recover(env, topo, method, inv_outcomes="both"):
+def recover(env, topo, method, inv_outcomes="both", pre_limit=None, light=False):
     stubs.OPTS["inv_outcomes"] = inv_outcomes
     c = build_case(env, topo)
     spec = c.spec
@@ -59,10 +60,18 @@ def recover(env, topo, method, inv_outcomes="both"):
     kw = dict(allow_negatives=False)
     if method:
         kw["method"] = method
-    err, warns = solve(c, build_kw=dict(angle_limit=np.inf), **kw)
+    err, warns = solve(c, build_kw=dict(angle_limit=np.inf),
+                       pre_build_kw=None if pre_limit is None else dict(angle_limit=pre_limit), **kw)
     c.vs.restore()
     obs = [Ob("solve-does-not-raise", err is None, note=f"{type(err).__name__}: {err}" if err else None)]
     if err is not None:
+        return obs
+    if light:
+        # only: an earlier build with another angle limit on the same object leaves no trace in the next one
+        order = [tuple(be.get_vertices_ids()) for be in c.frame.internal_big_edges]
+        obs.append(Ob("earlier-angle-limited-build-leaves-no-trace",
+                      len(c.fm.deletes) == 0 and [tuple(e) for e in c.fm.big_edges_to_use] == order
+                      and env.conj([c.frame.forces[i] >= 0 for i in range(len(order))])))
         return obs
     n = len(c.cols)
     E = n
@@ -101,15 +110,51 @@ def recover(env, topo, method, inv_outcomes="both"):
             src = dict(src)
         lemmas += kkt_zero_residual(env, src, z)
     obs.append(Ob("truth-solves-the-system-handed-to-the-back-end", truth_ok, lemmas=list(lemmas[:2 * c.M.shape[0] * n] if method == "lsq_linear" else [])))
-    # uniqueness hypothesis, instantiated at (x - z)
+    # Hypotheses, each instantiated at d = reported - truth:
+    #  * the property's: force balance determines the tensions up to scale, null(M) = span(T)  (M d_x = 0 => d_x || T)
+    #  * exact-inversion path only: np.linalg.inv succeeded, so the augmented matrix is regular  (A d = 0 => d = 0)
+    #  * lsq_linear only: the bordered *normal* system [[M^T M, 1], [1^T, 0]] is uniquely solvable under the first
+    #    hypothesis (T^T(M^T M x + l 1) = l sum(T) forces l = 0, then |M x|^2 = 0) -- used as trusted mathematics
+    region = None
+    finding = None
     if env.mode == "sym":
+        M = c.M
         diff = [x[j] - z[j] for j in range(n + 1)]
-        Az = env.conj([env.eq(sum((A[i, j] * diff[j] for j in range(1, n + 1)), A[i, 0] * diff[0]), 0) for i in range(A.shape[0])])
-        env.assume(env.implies(Az, env.conj([env.eq(d, 0) for d in diff])))
+        Md = env.conj([env.eq(sum((M[k, j] * diff[j] for j in range(1, n)), M[k, 0] * diff[0]), 0) for k in range(M.shape[0])])
+        par = env.conj([env.eq(diff[j] * z[0], diff[0] * z[j]) for j in range(1, n)])
+        env.assume(env.implies(Md, par))
+        Ad = env.conj([env.eq(sum((A[i, j] * diff[j] for j in range(1, n + 1)), A[i, 0] * diff[0]), 0) for i in range(A.shape[0])])
+        if src is inv or method == "lsq_linear":
+            env.assume(env.implies(Ad, env.conj([env.eq(d, 0) for d in diff])))
+    else:
+        # concrete replay: the property's hypothesis must really hold for the inputs (rank of M = n - 1)
+        Mf = np.asarray(c.M, dtype=float)
+        if Mf.size == 0 or np.linalg.matrix_rank(Mf, tol=1e-9) != n - 1:
+            from symx.harness import PreconditionFailed
+            raise PreconditionFailed("tensions are not determined up to scale for these inputs")
+    if method != "lsq_linear" and src is not inv:
+        # default / lsq on the augmented system [[M, 1], [1^T, 0]]: the multiplier column gives the non-negative problem a
+        # spurious degree of freedom; the truth is recovered exactly when the back-end's multiplier is zero
+        finding, region = "multiplier_column_spurious_freedom", (x[n] > 0)
+        if env.mode == "sym" and "r" in src:
+            # conditional lemma chain for the case multiplier <= 0 (cut, each step decided on its own)
+            M = c.M
+            lam0 = x[n] <= 0
+            L = [env.implies(lam0, env.eq(x[n], 0))]
+            for k in range(M.shape[0]):
+                L.append(env.implies(lam0, env.eq(sum((M[k, j] * x[j] for j in range(1, n)), M[k, 0] * x[0]), 0)))
+            for k in range(M.shape[0]):
+                L.append(env.implies(lam0, env.eq(sum((M[k, j] * diff[j] for j in range(1, n)), M[k, 0] * diff[0]), 0)))
+            L.append(env.implies(lam0, par))
+            L.append(env.eq(sum(diff[1:n], diff[0]), 0))
+            L.append(env.implies(lam0, env.eq(diff[0], 0)))
+            for j in range(1, n):
+                L.append(env.implies(lam0, env.eq(diff[j], 0)))
+            lemmas = list(lemmas) + L
     rec = env.true() & (len(forces) == n)
     for j, ln in enumerate(c.cols):
         rec = rec & env.eq(forces[j], T[ln], tol=1e-5)
-    obs.append(Ob("reported-is-true-tension-over-mean-true-tension", rec, lemmas=lemmas))
+    obs.append(Ob("reported-is-true-tension-over-mean-true-tension", rec, lemmas=lemmas, finding=finding, region=region))
     # write-back (C10-O1) on the reported values
     wb = env.true()
     for j, be in enumerate(c.frame.internal_big_edges):
@@ -132,15 +177,17 @@ def jobs(tier):
             js.append(Job(f"recover-{topo}-{method or 'default'}", "c01:recover", dict(topo=topo, method=method),
                           budget_s=2400, max_paths=400, weight=10 if topo != "T3" else 2,
                           opts=dict(final_timeout_ms=60000, cheap_forks=topo != "T3")))
-    if quick:
-        # square augmented system (exact-inversion path); the singular outcome of the inverse is left to the thorough tier
-        js.append(Job("recover-K3-default-regular-inverse", "c01:recover", dict(topo="K3", method=None, inv_outcomes="regular"),
-                      budget_s=1500, max_paths=400, weight=10, opts=dict(final_timeout_ms=60000, cheap_forks=True)))
+    js.append(Job("recover-T3-default-after-an-angle-limited-build", "c01:recover", dict(topo="T3", method=None, pre_limit=2 * np.pi / 3, light=True),
+                  budget_s=900, max_paths=400, weight=3, opts=dict(final_timeout_ms=60000, cheap_forks=True)))
+    # O1 link (placement of the coefficients), re-run from C02-B on the smallest tissues
+    for t in ("T3", "K3-n0"):
+        js.append(Job(f"matrix-{t}", "c02:matrix", dict(topo=t, ignore_four=None), budget_s=600, max_paths=3000))
     # O1 link, re-run for the regions in which the tangent itself is wrong (known findings are printed under C01 too)
     for ccw in (True, False):
         for end in ("first", "last"):
             for fit in ("dlite", "taubinSVD"):
                 js.append(Job(f"tangent-n3-{'ccw' if ccw else 'cw'}-{end}-{fit}", "c02:tangent",
                               dict(n=3, ccw=ccw, end=end, fit=fit), budget_s=300))
-    js.append(Job("two-point-dlite", "c02:two_point", dict(fit="dlite"), budget_s=300))
+    for end in ("first", "last"):
+        js.append(Job(f"two-point-dlite-{end}", "c02:two_point", dict(fit="dlite", end=end), budget_s=300))
     return js
